@@ -4,32 +4,49 @@ From TV Require Import Base.Prelude Spec.Ordered Model.TomlValue Spec.Canonical.
 From TV Require Import Proofs.ContainersOrder Proofs.CanonicalBase Proofs.CanonicalEmit Proofs.CanonicalRead Proofs.CanonicalOrder.
 From Coq Require Import Permutation.
 
+(* who hands the entries of the tables to the serializer *)
+Inductive writer :=
+| WValue     (* toml::Value: `impl Serialize for Value`, three loops at every level *)
+| WTable     (* toml::Table at the root: map order there, Values below *)
+| WStruct.   (* a derived struct / any impl that keeps its own order, at every level (ser_plain) *)
+Definition w_three (w : writer) : bool := match w with WValue => true | _ => false end.
+Definition w_tn (w : writer) : bool := match w with WStruct => false | _ => true end.
+
+Definition emit_doc (w : writer) (ml : bool) (m : list (bytes * tv)) : list section :=
+  match w with
+  | WValue => emit_value_doc ml m
+  | WTable => emit_table_doc ml m
+  | WStruct => emit_struct_doc ml m
+  end.
+
 (* the printers write the canonical document *)
-Lemma canonical_document ml m :
-  emit_value_doc ml m = sections_of ml true m /\ emit_table_doc ml m = sections_of ml false m.
-Proof. split; [apply emit_value_doc_canonical|apply emit_table_doc_canonical]. Qed.
+Lemma canonical_document w ml m : emit_doc w ml m = sections_of ml (w_three w) (w_tn w) m.
+Proof.
+  destruct w; [apply emit_value_doc_canonical|apply emit_table_doc_canonical|apply emit_struct_doc_canonical].
+Qed.
 
 (* ---- values before tables ---- *)
 
-(* any table value, written at any path (as the root, as a sub-table, as an array element) *)
-Lemma table_shape ml m t p a :
-  fmt_item ml (ser_value (TTab m)) = ITbl t ->
+(* any table, written at any path (as the root, as a sub-table, as an array element), by either
+   kind of serializer (tn = true: ser_value, tn = false: ser_plain) *)
+Lemma table_shape ml tn m t p a :
+  fmt_item ml (ser_g tn (TTab m)) = ITbl t ->
   flat_map visit_table (visit_nested t p a)
-  = own_section ml true m p (kind_of p a) ++ rest_secs ml true m p /\
-  Forall (fun s => strict_prefix p (s_path s)) (rest_secs ml true m p).
+  = own_section ml tn tn m p (kind_of p a) ++ rest_secs ml tn tn m p /\
+  Forall (fun s => strict_prefix p (s_path s)) (rest_secs ml tn tn m p).
 Proof.
   rewrite fmt_item_tab. intro E. injection E as <-.
-  rewrite (proj1 (emit_ok_all ml (TTab m)) m eq_refl p a). apply own_section_first.
+  rewrite (emit_eq_all ml tn tn m p a). apply own_section_first.
 Qed.
 
-Lemma values_before_tables_model ml m t p a pre s post :
-  fmt_item ml (ser_value (TTab m)) = ITbl t ->
+Lemma values_before_tables_model ml tn m t p a pre s post :
+  fmt_item ml (ser_g tn (TTab m)) = ITbl t ->
   flat_map visit_table (visit_nested t p a) = pre ++ s :: post ->
   strict_prefix p (s_path s) ->
   Forall (fun s' => strict_prefix p (s_path s')) post.
 Proof.
   rewrite fmt_item_tab. intro E. injection E as <-.
-  rewrite (proj1 (emit_ok_all ml (TTab m)) m eq_refl p a). apply values_before_tables.
+  rewrite (emit_eq_all ml tn tn m p a). apply values_before_tables.
 Qed.
 
 Lemma strict_prefix_nil q : strict_prefix [] q <-> q <> [].
@@ -40,47 +57,38 @@ Proof.
 Qed.
 
 (* the whole document: once a header has been written no root key/value line follows *)
-Lemma values_before_tables_doc ml m pre s post :
-  (emit_value_doc ml m = pre ++ s :: post \/ emit_table_doc ml m = pre ++ s :: post) ->
+Lemma values_before_tables_doc w ml m pre s post :
+  emit_doc w ml m = pre ++ s :: post ->
   s_path s <> [] -> Forall (fun s' => s_path s' <> []) post.
 Proof.
-  intros E Hs. apply strict_prefix_nil in Hs.
-  assert (H : Forall (fun s' => strict_prefix [] (s_path s')) post).
-  { destruct E as [E|E].
-    - rewrite emit_value_doc_canonical in E. exact (values_before_tables ml true m [] KRoot pre s post E Hs).
-    - rewrite emit_table_doc_canonical in E. exact (values_before_tables ml false m [] KRoot pre s post E Hs). }
+  intros E Hs. apply strict_prefix_nil in Hs. rewrite canonical_document in E.
+  pose proof (values_before_tables ml (w_three w) (w_tn w) m [] KRoot pre s post E Hs) as H.
   eapply Forall_impl; [|exact H]. intros s' H'. apply strict_prefix_nil. exact H'.
 Qed.
 
 (* ---- the document decodes to the value, whatever the order of the maps ---- *)
 
-Lemma emit_doc_cases (three : bool) ml m :
-  (if three then emit_value_doc ml m else emit_table_doc ml m) = sections_of ml three m.
-Proof. destruct three; [apply emit_value_doc_canonical|apply emit_table_doc_canonical]. Qed.
+Lemma read_back_emit w ml m :
+  wf_tv (TTab m) = true -> read_back (emit_doc w ml m) = Some (canon_root ml (w_three w) (w_tn w) m).
+Proof. intro W. rewrite canonical_document. apply read_back_canonical. exact W. Qed.
 
-Definition emit_doc (three ml : bool) (m : list (bytes * tv)) : list section :=
-  if three then emit_value_doc ml m else emit_table_doc ml m.
-
-Lemma read_back_emit three ml m :
-  wf_tv (TTab m) = true -> read_back (emit_doc three ml m) = Some (canon_root ml three m).
-Proof. intro W. unfold emit_doc. rewrite emit_doc_cases. apply read_back_canonical. exact W. Qed.
-
-Lemma any_order_decodes three ml m :
+Lemma any_order_decodes w ml m :
   wf_tv (TTab m) = true ->
-  exists r, read_back (emit_doc three ml m) = Some r /\ tv_equiv (TTab r) (TTab m).
+  exists r, read_back (emit_doc w ml m) = Some r /\ tv_equiv (TTab r) (TTab m) /\ wf_tv (TTab r) = true.
 Proof.
-  intro W. exists (canon_root ml three m). split; [apply read_back_emit; exact W|].
-  unfold tv_equiv. apply canon_root_equiv. exact W.
+  intro W. exists (canon_root ml (w_three w) (w_tn w) m). split; [apply read_back_emit; exact W|]. split.
+  - unfold tv_equiv. apply canon_root_equiv. exact W.
+  - apply wf_canon_root. exact W.
 Qed.
 
 (* two values that differ only in the order of map entries decode to values that differ only so *)
-Lemma any_order_same_value three three' ml ml' m m' :
+Lemma any_order_same_value w w' ml ml' m m' :
   wf_tv (TTab m) = true -> wf_tv (TTab m') = true -> tv_equiv (TTab m) (TTab m') ->
-  exists r r', read_back (emit_doc three ml m) = Some r /\ read_back (emit_doc three' ml' m') = Some r' /\
+  exists r r', read_back (emit_doc w ml m) = Some r /\ read_back (emit_doc w' ml' m') = Some r' /\
                tv_equiv (TTab r) (TTab r').
 Proof.
-  intros W W' E. destruct (any_order_decodes three ml m W) as (r & Hr & Er).
-  destruct (any_order_decodes three' ml' m' W') as (r' & Hr' & Er').
+  intros W W' E. destruct (any_order_decodes w ml m W) as (r & Hr & Er & _).
+  destruct (any_order_decodes w' ml' m' W') as (r' & Hr' & Er' & _).
   exists r, r'. repeat split; try assumption. unfold tv_equiv in *. congruence.
 Qed.
 
@@ -97,20 +105,21 @@ Qed.
 Definition sorted_tv (v : tv) : Prop := sort_tv v = v.
 
 (* under BTreeMap the decoded value is the sorted value: exactly v when v is a BTreeMap-backed value *)
-Lemma decode_sorted three ml m :
+Lemma decode_sorted w ml m :
   wf_tv (TTab m) = true ->
-  exists r, decode OSorted (emit_doc three ml m) = Some r /\ TTab r = sort_tv (TTab m).
+  exists r, decode OSorted (emit_doc w ml m) = Some r /\ TTab r = sort_tv (TTab m).
 Proof.
-  intro W. unfold decode. rewrite (read_back_emit three ml m W).
-  pose proof (canon_root_equiv ml three m W) as E.
-  rewrite (sort_tv_tab (canon_root ml three m)) in E. rewrite (sort_tv_tab (canon_root ml three m)).
+  intro W. unfold decode. rewrite (read_back_emit w ml m W).
+  pose proof (canon_root_equiv ml (w_three w) (w_tn w) m W) as E.
+  rewrite (sort_tv_tab (canon_root ml (w_three w) (w_tn w) m)) in E.
+  rewrite (sort_tv_tab (canon_root ml (w_three w) (w_tn w) m)).
   eexists. split; [reflexivity|]. exact E.
 Qed.
 
-Lemma decode_sorted_exact three ml m :
-  wf_tv (TTab m) = true -> sorted_tv (TTab m) -> decode OSorted (emit_doc three ml m) = Some m.
+Lemma decode_sorted_exact w ml m :
+  wf_tv (TTab m) = true -> sorted_tv (TTab m) -> decode OSorted (emit_doc w ml m) = Some m.
 Proof.
-  intros W S. destruct (decode_sorted three ml m W) as (r & Hr & Er). rewrite Hr. unfold sorted_tv in S.
+  intros W S. destruct (decode_sorted w ml m W) as (r & Hr & Er). rewrite Hr. unfold sorted_tv in S.
   rewrite S in Er. injection Er as ->. reflexivity.
 Qed.
 
@@ -119,24 +128,161 @@ Qed.
 Definition order_inv (o : morder) (m : list (bytes * tv)) : Prop :=
   match o with OSorted => sorted_tv (TTab m) | OInsertion => True end.
 
-Lemma fixpoint three o ml ml' m :
-  wf_tv (TTab m) = true -> order_inv o m ->
-  exists r, decode o (emit_doc three ml m) = Some r /\ emit_doc three ml' r = emit_doc three ml' m.
+(* for the serializers of toml::Value and toml::Table (w_tn w = true) *)
+Lemma fixpoint w o ml ml' m :
+  w_tn w = true -> wf_tv (TTab m) = true -> order_inv o m ->
+  exists r, decode o (emit_doc w ml m) = Some r /\ emit_doc w ml' r = emit_doc w ml' m.
 Proof.
-  intros W I. destruct o.
+  intros Tn W I. destruct o.
   - exists m. split; [apply decode_sorted_exact; assumption|reflexivity].
-  - exists (canon_root ml three m). split.
-    + unfold decode. rewrite (read_back_emit three ml m W). reflexivity.
-    + unfold emit_doc. rewrite !emit_doc_cases. apply fixpoint_canonical.
+  - exists (canon_root ml (w_three w) (w_tn w) m). split.
+    + unfold decode. rewrite (read_back_emit w ml m W). reflexivity.
+    + rewrite !canonical_document. rewrite Tn. apply fixpoint_canonical.
+Qed.
+
+(* sorting: well-formedness and idempotence *)
+Lemma wf_sort v : wf_tv v = true -> wf_tv (sort_tv v) = true.
+Proof.
+  induction v as [t|l IH|m IH] using tv_ind'; intro W.
+  - reflexivity.
+  - cbn [sort_tv wf_tv]. rewrite forallb_map. apply forallb_forall. intros e He.
+    rewrite Forall_forall in IH. apply IH; [exact He|]. apply wf_arr in W. rewrite Forall_forall in W. apply W. exact He.
+  - rewrite sort_tv_tab. apply wf_tab in W as [ND W].
+    assert (P : Permutation (sort_entries (map (fun kv => (fst kv, sort_tv (snd kv))) m)) (map (fun kv => (fst kv, sort_tv (snd kv))) m))
+      by apply (stable_sort_perm kle).
+    apply wf_tab_intro.
+    + eapply Permutation_NoDup; [apply Permutation_map; symmetry; exact P|]. rewrite map_fst_map. exact ND.
+    + apply Forall_forall. intros kv Hin. apply (Permutation_in _ P) in Hin.
+      apply in_map_iff in Hin as (kv' & <- & Hin'). cbn [snd].
+      rewrite Forall_forall in IH, W. apply IH; [exact Hin'|apply W; exact Hin'].
+Qed.
+
+Lemma sort_idem v : wf_tv v = true -> sort_tv (sort_tv v) = sort_tv v.
+Proof.
+  induction v as [t|l IH|m IH] using tv_ind'; intro W.
+  - reflexivity.
+  - cbn [sort_tv]. f_equal. rewrite map_map. apply map_ext_in. intros e He.
+    rewrite Forall_forall in IH. apply IH; [exact He|]. apply wf_arr in W. rewrite Forall_forall in W. apply W. exact He.
+  - rewrite !sort_tv_tab. f_equal. apply wf_tab in W as [ND W].
+    set (g := fun kv : bytes * tv => (fst kv, sort_tv (snd kv))).
+    assert (P : Permutation (sort_entries (map g m)) (map g m)) by apply (stable_sort_perm kle).
+    transitivity (sort_entries (map g (map g m))).
+    + apply sort_entries_perm; [apply Permutation_map; exact P|].
+      unfold g at 1. rewrite map_fst_map.
+      eapply Permutation_NoDup; [apply Permutation_map; symmetry; exact P|]. unfold g. rewrite map_fst_map. exact ND.
+    + f_equal. rewrite map_map. apply map_ext_in. intros kv Hin. unfold g. cbn [fst snd]. f_equal.
+      rewrite Forall_forall in IH, W. apply IH; [exact Hin|apply W; exact Hin].
+Qed.
+
+(* a struct's document, read as a toml::Value and printed: that second text is a fixed point *)
+Lemma struct_second_print o ml ml' m :
+  wf_tv (TTab m) = true ->
+  exists r, decode o (emit_doc WStruct ml m) = Some r /\ tv_equiv (TTab r) (TTab m) /\
+  exists r2, decode o (emit_doc WValue ml' r) = Some r2 /\ emit_doc WValue ml' r2 = emit_doc WValue ml' r.
+Proof.
+  intro W. destruct o.
+  - destruct (decode_sorted WStruct ml m W) as (r & Hr & Er). exists r. split; [exact Hr|].
+    assert (Wr : wf_tv (TTab r) = true) by (rewrite Er; apply wf_sort; exact W).
+    assert (Sr : sorted_tv (TTab r)) by (unfold sorted_tv; rewrite Er; apply sort_idem; exact W).
+    split; [unfold tv_equiv; rewrite Er; apply sort_idem; exact W|].
+    apply (fixpoint WValue OSorted ml' ml' r eq_refl Wr Sr).
+  - destruct (any_order_decodes WStruct ml m W) as (r & Hr & Er & Wr). exists r.
+    split; [unfold decode; rewrite Hr; reflexivity|]. split; [exact Er|].
+    apply (fixpoint WValue OInsertion ml' ml' r eq_refl Wr I).
 Qed.
 
 (* ---- plain and pretty ---- *)
 
-Lemma plain_pretty three o m :
+Lemma plain_pretty w o m :
   wf_tv (TTab m) = true ->
-  decode o (emit_doc three true m) = decode o (emit_doc three false m) /\
-  decode o (emit_doc three false m) <> None.
+  decode o (emit_doc w true m) = decode o (emit_doc w false m) /\
+  decode o (emit_doc w false m) <> None.
 Proof.
-  intro W. unfold decode. rewrite !(read_back_emit three _ m W). rewrite (canon_root_layout true three m).
+  intro W. unfold decode. rewrite !(read_back_emit w _ m W). rewrite (canon_root_layout true (w_three w) (w_tn w) m).
   split; [reflexivity|discriminate].
+Qed.
+
+(* ---- "up to the order of map entries", spelled out ---- *)
+
+(* w is v with the entries of any of its maps, at any depth, permuted *)
+Inductive perm_tv : tv -> tv -> Prop :=
+| PLeaf t : perm_tv (TLeaf t) (TLeaf t)
+| PArr l l' : Forall2 perm_tv l l' -> perm_tv (TArr l) (TArr l')
+| PTab m m1 m' :
+    Permutation m m1 ->
+    Forall2 (fun a b => fst a = fst b /\ perm_tv (snd a) (snd b)) m1 m' ->
+    perm_tv (TTab m) (TTab m').
+
+Lemma Forall2_map_eq {A B C} (f : A -> C) (g : B -> C) l l' :
+  Forall2 (fun a b => f a = g b) l l' -> map f l = map g l'.
+Proof. induction 1 as [|a b l l' H _ IH]; [reflexivity|]. cbn [map]. rewrite H, IH. reflexivity. Qed.
+
+Lemma wf_perm m m1 : Permutation m m1 -> wf_tv (TTab m) = true -> wf_tv (TTab m1) = true.
+Proof.
+  intros P W. apply wf_tab in W as [ND W]. cbn [wf_tv]. apply andb_true_iff. split.
+  - apply keys_distinct_spec. eapply Permutation_NoDup; [|exact ND]. apply Permutation_map. exact P.
+  - assert (F : Forall (fun kv => wf_tv (snd kv) = true) m1).
+    { rewrite Forall_forall in W |- *. intros kv Hin. apply W. eapply Permutation_in; [symmetry; exact P|exact Hin]. }
+    clear -F. induction m1 as [|[k x] r IH]; [reflexivity|]. inversion F; subst. cbn [snd] in *.
+    apply andb_true_iff. split; [assumption|apply IH; assumption].
+Qed.
+
+Lemma perm_tv_equiv v : forall w, perm_tv v w -> wf_tv v = true -> tv_equiv v w.
+Proof.
+  unfold tv_equiv. induction v as [t|l IH|m IH] using tv_ind'; intros w P W; inversion P; subst.
+  - reflexivity.
+  - cbn [sort_tv]. f_equal. apply wf_arr in W.
+    match goal with H : Forall2 perm_tv l _ |- _ => rename H into F end.
+    clear P. revert IH W. induction F as [|a b l l' Hab _ IHF]; intros IH W; [reflexivity|].
+    inversion IH; subst. inversion W; subst. cbn [map]. f_equal; [auto|apply IHF; assumption].
+  - match goal with H : Permutation m _ |- _ => rename H into Pm end.
+    match goal with H : Forall2 _ m1 _ |- _ => rename H into F end.
+    pose proof (wf_perm m m1 Pm W) as W1. apply wf_tab in W as [ND Wm]. apply wf_tab in W1 as [ND1 Wm1].
+    rewrite !sort_tv_tab. f_equal.
+    transitivity (sort_entries (map (fun kv => (fst kv, sort_tv (snd kv))) m1)).
+    + apply sort_entries_perm; [apply Permutation_map; exact Pm|rewrite map_fst_map; exact ND].
+    + f_equal.
+      assert (IH1 : Forall (fun kv => forall w, perm_tv (snd kv) w -> wf_tv (snd kv) = true -> sort_tv (snd kv) = sort_tv w) m1).
+      { rewrite Forall_forall in IH |- *. intros kv Hin. apply IH. eapply Permutation_in; [symmetry; exact Pm|exact Hin]. }
+      clear -F IH1 Wm1. induction F as [|a b l l' [Hk Hab] _ IHF]; [reflexivity|].
+      inversion IH1; subst. inversion Wm1; subst. cbn [map]. f_equal; [|apply IHF; assumption].
+      rewrite Hk. f_equal. auto.
+Qed.
+
+Lemma Forall2_weaken {A B} (P Q : A -> B -> Prop) l l' :
+  (forall a b, P a b -> Q a b) -> Forall2 P l l' -> Forall2 Q l l'.
+Proof. intros H F. induction F; constructor; auto. Qed.
+
+Lemma perm_tv_wf v : forall w, perm_tv v w -> wf_tv v = true -> wf_tv w = true.
+Proof.
+  induction v as [t|l IH|m IH] using tv_ind'; intros w P W; inversion P; subst.
+  - reflexivity.
+  - apply wf_arr in W. cbn [wf_tv]. apply forallb_forall.
+    match goal with H : Forall2 perm_tv l _ |- _ => rename H into F end.
+    clear P. revert IH W. induction F as [|a b l l' Hab _ IHF]; intros IH W x Hin; [destruct Hin|].
+    inversion IH; subst. inversion W; subst. destruct Hin as [<-|Hin]; [auto|apply IHF; assumption].
+  - match goal with H : Permutation m _ |- _ => rename H into Pm end.
+    match goal with H : Forall2 _ m1 _ |- _ => rename H into F end.
+    pose proof (wf_perm m m1 Pm W) as W1. apply wf_tab in W1 as [ND1 Wm1].
+    assert (IH1 : Forall (fun kv => forall w, perm_tv (snd kv) w -> wf_tv (snd kv) = true -> wf_tv w = true) m1).
+    { rewrite Forall_forall in IH |- *. intros kv Hin. apply IH. eapply Permutation_in; [symmetry; exact Pm|exact Hin]. }
+    apply wf_tab_intro.
+    + rewrite <- (Forall2_map_eq fst fst m1 m'); [exact ND1|].
+      eapply Forall2_weaken; [|exact F]. intros a b [H _]. exact H.
+    + clear -F IH1 Wm1. induction F as [|a b l l' [Hk Hab] _ IHF]; [constructor|].
+      inversion IH1; subst. inversion Wm1; subst. constructor; [eauto|apply IHF; assumption].
+Qed.
+
+(* whatever the order of the entries of every map of v: both documents are accepted and decode to
+   v up to that order *)
+Lemma any_permutation_decodes w w' ml ml' m m' :
+  wf_tv (TTab m) = true -> perm_tv (TTab m) (TTab m') ->
+  exists r r',
+    read_back (emit_doc w ml m) = Some r /\ read_back (emit_doc w' ml' m') = Some r' /\
+    tv_equiv (TTab r) (TTab m) /\ tv_equiv (TTab r') (TTab m).
+Proof.
+  intros W P. pose proof (perm_tv_equiv _ _ P W) as E. pose proof (perm_tv_wf _ _ P W) as W'.
+  destruct (any_order_decodes w ml m W) as (r & Hr & Er & _).
+  destruct (any_order_decodes w' ml' m' W') as (r' & Hr' & Er' & _).
+  exists r, r'. repeat split; try assumption. unfold tv_equiv in *. congruence.
 Qed.
